@@ -7,6 +7,11 @@ package gocql
 // connects must concern that host and no other.
 
 import (
+	"sync"
+	"strings"
+	"net"
+	"errors"
+	"context"
 	"fmt"
 	"testing"
 	"time"
@@ -115,5 +120,106 @@ func TestVxC16NoLookup(t *testing.T) {
 		},
 		New: func() interface{} { return &vxC16NoLookupCase{} },
 		Run: func(ci interface{}, k *vstats.Case) error { return vxRunC16NoLookup(ci.(*vxC16NoLookupCase), k) },
+	})
+}
+
+// ---------------------------------------------------------------------------------------------
+// A pool that can be filled only in part (the node accepts one connection and refuses the others): the node was
+// not reported down by anybody, it answers on the connection it has - it stays up and is offered.
+
+type vxC16PartialCase struct {
+	Proto    int `json:"proto"`
+	N        int `json:"n"`
+	NumConns int `json:"num_conns"` // 2..4
+	Allow    int `json:"allow"`     // connections the target accepts (1 .. NumConns-1)
+}
+
+type vxLimitDialer struct {
+	cl     *vnode.Cluster
+	target string
+	allow  int
+	mu     sync.Mutex
+	n      int
+}
+
+func (d *vxLimitDialer) DialContext(ctx context.Context, network, addr string) (net.Conn, error) {
+	if strings.HasPrefix(addr, d.target+":") {
+		d.mu.Lock()
+		d.n++
+		over := d.n > d.allow
+		d.mu.Unlock()
+		if over {
+			return nil, &net.OpError{Op: "dial", Net: network, Err: errors.New("connection refused")}
+		}
+	}
+	return d.cl.DialContext(ctx, network, addr)
+}
+
+func vxRunC16Partial(c *vxC16PartialCase, k *vstats.Case) error {
+	if c.Proto < 1 || c.Proto > 5 || c.N < 2 || c.N > 3 || c.NumConns < 2 || c.NumConns > 4 || c.Allow < 1 || c.Allow >= c.NumConns {
+		return nil
+	}
+	specs := vxSpecs(c.N, 1)
+	cl := vnode.NewCluster(specs)
+	target := specs[c.N-1].IP // the contact point (and the control connection) is node 0
+	d := &vxLimitDialer{cl: cl, target: target, allow: c.Allow}
+	s, err := vxClusterConfig(cl, c.Proto, func(cfg *ClusterConfig) {
+		cfg.NumConns = c.NumConns
+		cfg.Dialer = d
+		cfg.ReconnectInterval = 0
+		cfg.PoolConfig.HostSelectionPolicy = RoundRobinHostPolicy()
+	}).CreateSession()
+	if err != nil {
+		return fmt.Errorf("harness: CreateSession: %v", err)
+	}
+	defer s.Close()
+	var host *HostInfo
+	for _, h := range s.ring.allHosts() {
+		if h.ConnectAddress().String() == target {
+			host = h
+		}
+	}
+	if host == nil {
+		return fmt.Errorf("harness: target not in the ring")
+	}
+	// let the fills come to rest (a failed fill waits 31..130 ms before it ends)
+	time.Sleep(400 * time.Millisecond)
+	for i := 0; i < 4*c.N; i++ {
+		if err := s.Query("LIST x").Exec(); err != nil {
+			return fmt.Errorf("node %s accepts %d of %d connections; query %d failed: %v", target, c.Allow, c.NumConns, i, err)
+		}
+	}
+	time.Sleep(200 * time.Millisecond)
+	p, ok := s.pool.getPool(host)
+	size := -1
+	if ok {
+		size = p.Size()
+	}
+	offered := false
+	it := s.policy.Pick(nil)
+	for i := 0; i < 2*c.N; i++ {
+		if sh := it(); sh != nil && sh.Info() == host {
+			offered = true
+		}
+	}
+	if !host.IsUp() || size < 1 || !offered {
+		return fmt.Errorf("node %s accepted %d of the %d connections of its pool and refused the rest; nobody reported it down, yet the driver has it up=%v, pool size %d, offered by the policy=%v", target, c.Allow, c.NumConns, host.IsUp(), size, offered)
+	}
+	k.NonTrivial()
+	k.Class(fmt.Sprintf("partial fill: %d of %d", c.Allow, c.NumConns))
+	return nil
+}
+
+func TestVxC16PartialFill(t *testing.T) {
+	vx.Check(t, vx.Prop{
+		ID: "C16", Part: "TestVxC16PartialFill",
+		Rule: "protocol 1..5, 2..3 nodes, 2..4 connections per host; one node (not the contact point) accepts 1..NumConns-1 connections and refuses the rest; queries are issued; oracle: the node stays up, keeps a pool of at least one connection and is offered by the policy, queries succeed; every case is non-trivial; distinct by the case",
+		Draw: func(t *rapid.T) interface{} {
+			c := &vxC16PartialCase{Proto: rapid.IntRange(1, 5).Draw(t, "proto"), N: rapid.IntRange(2, 3).Draw(t, "n"), NumConns: rapid.IntRange(2, 4).Draw(t, "numconns")}
+			c.Allow = rapid.IntRange(1, c.NumConns-1).Draw(t, "allow")
+			return c
+		},
+		New: func() interface{} { return &vxC16PartialCase{} },
+		Run: func(ci interface{}, k *vstats.Case) error { return vxRunC16Partial(ci.(*vxC16PartialCase), k) },
 	})
 }
